@@ -3,8 +3,10 @@ import os
 import sys
 sys.path.insert(0, os.path.dirname(os.path.dirname(os.path.abspath(__file__))))
 from gen import jsongen as G
+from gen import domgen as D
 from lib import tree as T
 from lib.core import existing_modules
+from props import c12
 
 ID = "C06"
 LEVEL = "other"
@@ -65,6 +67,25 @@ def generate(rng, tier):
         f = struct.unpack("<d", struct.pack("<Q", rng.getrandbits(63)))[0]
         if f == f and f != float("inf"):
             add(b"[" + repr(f).encode() + b",-" + repr(f).encode() + b"]", "doubles")
+    # documents assembled through the mutation API (arbitrary string bytes, duplicate keys, every number kind); one third of them
+    # contain a non-finite double (both infinities, quiet / signalling / negative / payload NaNs) at a random position or as the root
+    for k in range(500 if quick else 40000):
+        nf = k % 3 == 0
+        v = D.api_tree(rng, nonfinite=(0.15 if nf else 0.0), maxdepth=rng.choice([0, 1, 2, 3]))
+        if nf and T.all_finite(T.parse(D.show(v))):
+            bad = ("d", rng.choice(D.NONFINITE))
+            v = rng.choice([bad, D.arr([v, bad]), D.arr([bad, v]), D.obj([[b"a", v], [b"nf", bad], [b"z", None]]), D.arr([D.arr([D.obj([[b"k", bad]])]), v])])
+        lines = ["dom-reset " + rng.choice(["pool", "simple", "track"])]
+        D.build_cmds(0, [], v, lines)
+        exp = [{"_skip": True}] * len(lines)
+        tree = D.show(v)
+        fin = T.all_finite(T.parse(tree))
+        for _ in range(rng.choice([1, 2])):
+            lines.append(f"dom-dumpwb 0 / {rng.choice([0, 1, 8, 64, 256, 4096])} {rng.choice([0, 0, 1, 2])}")
+            exp.append({"_dump": True, "finite": fin, "tree": tree, "dups": D.has_dups(v)})
+        lines.append("dom-end")
+        exp.append({"ok": True, "ledger": "ok"})
+        cases.append({"lines": lines, "exp": exp, "cls": "api-built/" + ("finite" if fin else "nonfinite"), "nontrivial": isinstance(v, list)})
     return cases
 
 
@@ -73,6 +94,8 @@ def _kv(line):
 
 
 def judge(case, mo, io, cfg):
+    if "exp" in case:
+        return c12.judge_lines(case, mo, io, cfg)
     if "CRASH" in io[0]:
         return ("violation", f"Serialize crashed / sanitizer report: {io[0][:220]} for `{case['lines'][0][:160]}`")
     if io[0] in ("bad-input", "bad-op") or mo[0] in ("bad-input", "bad-op"):
